@@ -72,6 +72,9 @@ MUTANTS = [
      "                env_vars.pop(SLOT_ENV_VARIABLE_NAME, None)\n", "                pass\n", ["C04"]),
     ("gate-parallel-mode-ignored", "execution/executor.py",
      "                self._running_parallel\n                and len(self._inflight_ops) < self._slots", "                True\n                and len(self._inflight_ops) < self._slots", ["C04"]),
+    ("revert-D21-getpgid-unguarded", "execution/ops/run_task_executable.py",
+     "                except OSError as ex:\n                    # The process may have already exited (and been reaped by\n                    # the SIGCHLD handler); there is nothing left to signal.\n                    if ex.errno != errno.ESRCH and ex.errno != errno.ECHILD:\n                        raise\n",
+     "                except ZeroDivisionError:\n                    raise\n", ["C16"]),
     ("loader-no-dup-check", "parsing/task_index.py",
      "                    if dep_identifier in task_deps_set:\n", "                    if dep_identifier in task_deps_set and len(task_deps) > 2:\n", ["C14"]),
 ]
